@@ -873,8 +873,8 @@ def _check_union(value: Any, type_args: Tuple[Any, ...], type_vars: Dict[TypeVar
 
     for bounded_type_var in args_type_vars_bounded:
         try:
-            _is_instance(obj=value, type_=bounded_type_var, type_vars=type_vars, context=context)
-            return True
+            if _is_instance(obj=value, type_=bounded_type_var, type_vars=type_vars, context=context):
+                return True
         except PedanticException:
             pass
 
